@@ -3,6 +3,7 @@ package main
 import (
 	"bytes"
 	"encoding/json"
+	"errors"
 	"fmt"
 	"sort"
 	"strconv"
@@ -10,6 +11,7 @@ import (
 	"unicode/utf8"
 
 	"github.com/moov-io/iso8583"
+	iso8583errors "github.com/moov-io/iso8583/errors"
 	"github.com/moov-io/iso8583/field"
 )
 
@@ -299,9 +301,22 @@ func init() {
 		// a write of v to element id every node of its value was there before the write or is part of v
 		{
 			quiet := map[int]*Sx{}
+			// the subfield of an element in which the last Unpack failed ("id.tag"): the element keeps what was decoded
+			// before the failure until the next Unpack, but that subfield was discarded
+			failedSub := map[int]string{}
 			replayMsg(spec, a[1].List, func(i int, o *Sx, m *iso8583.Message) {
 				if len(fs) > 0 || o.Head() == "get" || o.Head() == "note" {
 					return
+				}
+				if o.Head() == "unpack" {
+					failedSub = map[int]string{}
+					probe := iso8583.NewMessage(buildMessageSpec(spec))
+					var ue *iso8583errors.UnpackError
+					if err := probe.Unpack(append([]byte(nil), o.List[1].Hex()...)); err != nil && errors.As(err, &ue) && len(ue.FieldIDs()) >= 2 {
+						if fid, cerr := strconv.Atoi(ue.FieldIDs()[0]); cerr == nil {
+							failedSub[fid] = ue.FieldIDs()[0] + "." + ue.FieldIDs()[1]
+						}
+					}
 				}
 				if o.Head() == "setval" && o.List[1].Int() >= 2 {
 					id := o.List[1].Int()
@@ -314,7 +329,13 @@ func init() {
 					if cur := observedVal(m, id); cur != nil {
 						valuePaths(cur, fmt.Sprint(id), after)
 					}
+					fsub, failedHere := failedSub[id]
+					delete(failedSub, id)
 					for p := range after {
+						if failedHere && !(p == fsub || strings.HasPrefix(p, fsub+".")) {
+							// decoded by the failed Unpack before it failed: kept until the next Unpack
+							continue
+						}
 						if !before[p] {
 							fs = append(fs, Finding{"c14-resurrected", fmt.Sprintf("after step %d (setval %d) subfield %s is populated though it was neither populated before this write nor part of it", i, id, p)})
 							return
@@ -337,6 +358,7 @@ func init() {
 				return true, fs
 			}
 		}
+		failedSub2 := map[int]string{}
 		replayMsg(spec, a[1].List, func(i int, o *Sx, m *iso8583.Message) {
 			if len(fs) > 0 || o.Head() == "get" || o.Head() == "note" {
 				return
@@ -424,11 +446,25 @@ func init() {
 					if cur := observedVal(m, id); cur != nil {
 						valuePaths(cur, fmt.Sprint(id), after)
 					}
+					fsub, failedHere := failedSub2[id]
+					delete(failedSub2, id)
 					for p := range after {
+						if failedHere && !(p == fsub || strings.HasPrefix(p, fsub+".")) {
+							continue
+						}
 						if !before[p] {
 							fs = append(fs, Finding{"c14-resurrected", fmt.Sprintf("after step %d (setval %d) subfield %s is populated though it was neither populated before this write nor part of it", i, id, p)})
 							return
 						}
+					}
+				}
+			case "unpack":
+				failedSub2 = map[int]string{}
+				probe := iso8583.NewMessage(buildMessageSpec(spec))
+				var ue *iso8583errors.UnpackError
+				if err := probe.Unpack(append([]byte(nil), o.List[1].Hex()...)); err != nil && errors.As(err, &ue) && len(ue.FieldIDs()) >= 2 {
+					if fid, cerr := strconv.Atoi(ue.FieldIDs()[0]); cerr == nil {
+						failedSub2[fid] = ue.FieldIDs()[0] + "." + ue.FieldIDs()[1]
 					}
 				}
 			case "unsetp":
